@@ -165,6 +165,11 @@ func c11Check(c c11Case) vfResult {
 	}
 	r.Hash = vfHash(x, vfHashU(uint64(c.Limit)), []byte(c.Via))
 	r.Err = c11Oracle(h, got)
+	if r.Err == nil && c.Via == "detect" && (r.Hash%3 == 0 || len(x) > 3000) {
+		if err := vfRoutes(x, c.Limit, vfDetectAt(x, c.Limit)); err != nil {
+			r.Err = fmt.Errorf("%v; x=%s", err, vfQ(x))
+		}
+	}
 	return r
 }
 
@@ -255,6 +260,21 @@ var c11Texts = []string{
 }
 
 func c11Gen(t *rapid.T) c11Case {
+	if rapid.IntRange(0, 15).Draw(t, "long") == 0 {
+		// long text, limit above the default, a deciding byte planted around the limit
+		unit := rapid.SampledFrom([]string{"plain ascii text ", "caf\u00e9 cr\u00e8me ", "caf\xe9 latin ", "\u65e5\u672c\u8a9e "}).Draw(t, "unit")
+		n := rapid.IntRange(3100, 8000).Draw(t, "n")
+		var lx []byte
+		for len(lx) < n {
+			lx = append(lx, unit...)
+		}
+		L := rapid.IntRange(3073, len(lx)).Draw(t, "L")
+		p := L + rapid.IntRange(-3, 3000).Draw(t, "off")
+		if p >= 0 && p < len(lx) {
+			lx[p] = rapid.SampledFrom([]byte{0xe9, 0x85, 0xff, 0xc3, 0x93}).Draw(t, "planted")
+		}
+		return c11Case{X: lx, Limit: uint32(L), Via: "detect"}
+	}
 	var x []byte
 	switch rapid.IntRange(0, 3).Draw(t, "k") {
 	case 0: // real text, 0-2 bytes replaced
